@@ -111,3 +111,75 @@ def run(ctx):
     for k in (0, len(lines) // 2):
         if k < len(lines):
             ctx.sample({'case': lines[k], 'impl': im[k], 'model': m[k]})
+    if not ctx.replay or ctx.replay['case'].get('line', '').startswith('srv '):
+        server_part(ctx)
+
+
+def server_part(ctx):
+    """End to end: humphrey_server::server::main started from a configuration text with a blacklist file; clients connect
+    from chosen loopback source addresses (with_connection_condition(verify_connection) and the per-route checks as wired
+    by the real server)."""
+    rng = ctx.rng
+    n = 400 if ctx.tier == 'thorough' else 24
+    lines, meta = [], []
+    if ctx.replay:
+        lines, meta, n = [ctx.replay['case']['line']], [None], 0
+    for i in range(n):
+        mode = ['block', 'forbidden'][i % 2]
+        lst = rng.sample(POOL[:4] + ['10.0.0.1', '203.0.113.7', '::1'], rng.randint(1, 3))
+        cache = rng.random() < 0.5
+        conf = '\n'.join(['server {', '  address "127.0.0.1"', '  port 8080', '  threads 2', '  log {', '    level "error"', '    console false', '  }',
+                          '  blacklist {', '    file "@FIX@/bl.txt"', '    mode "%s"' % mode, '  }'] +
+                         (['  cache {', '    size 1M', '    time 60', '  }'] if cache else []) +
+                         ['  route /f {', '    file "@FIX@/page.html"', '  }', '  route /r {', '    redirect "/elsewhere"', '  }',
+                          '  route /d/* {', '    directory "@FIX@/dir"', '  }', '}']) + '\n'
+        fixtures = ','.join(['%s:%s' % (hx('bl.txt'), hx('\n'.join(lst) + '\n')), '%s:%s' % (hx('page.html'), hx('PAGE')),
+                             '%s:%s' % (hx('dir/x.txt'), hx('DIRFILE'))])
+        reqs = []
+        for _ in range(6):
+            peer = rng.choice(POOL[:4])
+            xff = rng.choice([None, None, rng.choice(POOL), '%s, %s' % (rng.choice(POOL), rng.choice(POOL + ['::1', 'unknown']))])
+            target = rng.choice(['/f', '/r', '/d/x.txt'])
+            reqs.append((peer, xff, target))
+        # an unlisted client fetches everything first, so that cached answers exist when the cache is on
+        warm = [('127.0.0.77', None, t) for t in ('/f', '/d/x.txt')]
+        allr = warm + reqs
+        lines.append('srv %s %s %s' % (hx(conf), fixtures, ','.join('%s:%s:%s:%s' % (hx('x'), hx(t), hx(p), hx(x) if x else '-') for p, x, t in allr)))
+        meta.append((mode, lst, allr))
+    im = ctx.impl(lines)
+    ctx.evaluations += len(lines)
+    for line, me, b in zip(lines, meta, im):
+        ctx.count('kind:server-e2e')
+        if me is None:
+            ctx.sample({'replayed': line[:200], 'impl': b[:300]})
+            continue
+        mode, lst, allr = me
+        got = b.split(',')
+        if len(got) != len(allr):
+            ctx.report({'line': line[:4000], 'kind': 'server-e2e'}, b[:300], 'one answer per request', cls='bl-server',
+                       failing_input=b in ('PANIC', 'DIED', 'TIMEOUT'), what='the config-driven server did not answer: ' + b[:100])
+            continue
+        for (peer, xff, target), g in zip(allr, got):
+            fwd = [canon6(e.strip()) or e.strip() for e in (xff or '').split(',')]
+            listed_peer, listed_fwd = peer in lst, any(e in lst for e in fwd)
+            if listed_peer and mode == 'block':
+                want = 'dropped'
+            elif listed_peer or listed_fwd:
+                want = 'forbidden'
+            else:
+                want = 'served'
+            cls = 'dropped' if g == 'noresp' else 'forbidden' if g.startswith('403:') else 'served' if g[:4] in ('200:', '301:') else 'other'
+            if cls == 'served':
+                body_ok = {'/f': '200:body:' + b'PAGE'.hex(), '/r': '301:loc:' + b'/elsewhere'.hex(), '/d/x.txt': '200:body:' + b'DIRFILE'.hex()}[target]
+                if g != body_ok:
+                    cls = 'other'
+            if cls != want:
+                ctx.report({'line': line[:4000], 'kind': 'server-e2e', 'request': [peer, xff, target], 'mode': mode, 'list': lst}, g[:200], want,
+                           cls='bl-server', failing_input=True,
+                           what='real server, %s mode, list %r: client %s (X-Forwarded-For %r) asking %s got %s, expected %s' % (
+                               mode, lst, peer, xff, target, g[:60], want))
+            elif want != 'served':
+                ctx.mark_nontrivial(line + peer + str(xff) + target)
+    import shutil
+    from hv import V
+    shutil.rmtree(V + '/work/c04srv', ignore_errors=True)
